@@ -29,9 +29,9 @@ TEXT = {
         'design_ref': 'DESIGN.md §4 C11',
     },
     'C06': {
-        'text': 'Partial: one tree level off the input path and the seed helpers, on the real generate_correction_word/eval_next with XOF expansion uninterpreted (Kani, all seeds/bits/values symbolic).',
-        'note': 'NOT decided: on-path step (thorough), composition over levels, Field255 leaves, cache transparency (bitvec normalisation): a change to NormalizedBitVec is not detected.',
-        'technique': 'function contracts on real code with uninterpreted XOF expansion (Kani/CBMC)',
+        'text': 'Partial: one tree level, every case. Verus proves on the extracted generate_correction_word and eval_next (abstract seeds with xor, XOF expansion uninterpreted, values in the abstract field) that they compute the specified construction and, as a theorem over the two contracts, that on the input path the parties keep differing control bits and their shares sum to the programmed value, that leaving the path makes keys and control bits equal with shares summing to zero, and that off the path this is preserved. Kani proves the seed helpers, the value select/negate contracts and the off-path step on the compiled code (all seeds/bits/values symbolic).',
+        'note': 'NOT decided: the induction over the level loops (bitvec-indexed, cache-mediated), Field255 leaves, cache transparency (bitvec normalisation): a change to NormalizedBitVec is not detected.',
+        'technique': 'function contracts against spec functions + a level theorem over the contracts on extracted real code (Verus); function contracts on compiled code with uninterpreted XOF expansion (Kani/CBMC)',
         'design_ref': 'DESIGN.md §4 C06',
     },
     'C10': {
